@@ -325,6 +325,7 @@ func (t target) raw(authz []string) string {
 // ------------------------------------------------------------------ tokens
 
 type signer struct {
+	listed     bool // written to the authorized_keys file (authorised signers always are)
 	name       string
 	priv       any
 	pub        ssh.PublicKey
@@ -588,8 +589,25 @@ func acceptable(s tokenSpec, signers []*signer, genuine bool) bool {
 	return true
 }
 
+func mustRSA(bits int) *rsa.PrivateKey {
+	for {
+		k, err := rsa.GenerateKey(rand.Reader, bits)
+		if err != nil {
+			panic(err)
+		}
+		if k.N.BitLen() == bits {
+			return k
+		}
+	}
+}
+
+func weak(s *signer) *signer { s.listed = true; return s }
+
 func makeSigners(t *testing.T) []*signer {
 	mk := func(name string, priv any, pub any, authorized bool) *signer {
+		if k, ok := priv.(*rsa.PrivateKey); ok && pub == nil {
+			pub = &k.PublicKey
+		}
 		sp, err := ssh.NewPublicKey(pub)
 		if err != nil {
 			t.Fatal(err)
@@ -607,6 +625,11 @@ func makeSigners(t *testing.T) []*signer {
 		mk("bob-ed25519", edPriv, edPub, true),
 		mk("dave-rsa", r1, &r1.PublicKey, true),
 		mk("mallory-ecdsa256", m1, &m1.PublicKey, false),
+		// keys that ARE written to authorized_keys but do not meet the documented minimum (RSA >= 2048 bit):
+		// they authorise nobody (boundary sizes just below the minimum, and a clearly weak one)
+		weak(mk("eve-rsa", mustRSA(2047), nil, false)),
+		weak(mk("fay-rsa", mustRSA(2041), nil, false)),
+		weak(mk("gus-rsa", mustRSA(1024), nil, false)),
 	}
 }
 
@@ -734,7 +757,7 @@ func TestVerifC04(t *testing.T) {
 	dir := t.TempDir()
 	keys := ""
 	for _, s := range signers {
-		if s.authorized {
+		if s.authorized || s.listed {
 			keys += strings.TrimSpace(string(ssh.MarshalAuthorizedKey(s.pub))) + " " + s.comment + "\n"
 		}
 	}
